@@ -6,6 +6,7 @@ import IrVerif.Lemmas.Extract
 import IrVerif.Lemmas.Implicit
 import IrVerif.Lemmas.ExtractEval
 import IrVerif.Lemmas.ExtractClone
+set_option linter.unusedSimpArgs false
 namespace IrVerif.Extract
 
 /-- the state in which the `while value_stack:` loop ends -/
@@ -356,6 +357,32 @@ theorem C18_captures_exact (W : World) (g : GraphT) (k : GId) :
   · rw [(foldl_procN_spec W g.gid k 0 g.nodes []).2 k]
     simp [Usages.HasKey]
 
+/-- **C18_captures_complete**: every free variable of a nested graph is reported — if `s` is nested in `g` (at
+    any depth), `v` is an input of a node of `s` or of a graph nested in `s`, and neither `s` nor a graph
+    nested in `s` owns `v`, then `v` is in the entry of `s`. -/
+theorem C18_captures_complete (W : World) (g : GraphT) {n : NodeT} {b s : GraphT} {v : VId}
+    (hn : n ∈ g.nodes) (hb : b ∈ n.bodies) (hs : SubG b s) (hu : UsedInG s v)
+    (hfree : ∀ j, NestedIn s j → W.graphOf v ≠ some j) :
+    v ∈ (analyze W g).get s.gid := by
+  rw [(C18_captures_exact W g s.gid).1 v]
+  obtain ⟨path, hp⟩ := capG_lift (W := W) hs
+  refine ⟨n, hn, b, hb, hp [] s.gid v ?_⟩
+  exact capG_of_used W v s.gid s (path ++ []) hu hfree (addsTo_self (hfree s.gid NestedIn.self))
+
+/-- **C18_captures_sound**: everything reported for `k` is used in or below a graph nested in `g` whose id is
+    `k`, and that graph does not own it.  (With pairwise distinct graph ids this graph is *the* graph `k`.
+    That no graph nested deeper in it owns the value either — the full "defined outside" — needs the scoping
+    assumption that a value is only used inside the graph that owns it; that part is checked by the oracle
+    only, see harness/c18.py.) -/
+theorem C18_captures_sound (W : World) (g : GraphT) {k : GId} {v : VId}
+    (h : v ∈ (analyze W g).get k) :
+    ∃ n b s, n ∈ g.nodes ∧ b ∈ n.bodies ∧ SubG b s ∧ s.gid = k ∧ UsedInG s v ∧ W.graphOf v ≠ some k := by
+  obtain ⟨n, hn, b, hb, hcap⟩ := ((C18_captures_exact W g k).1 v).mp h
+  obtain ⟨h1, h2⟩ := capG_sound hcap
+  rcases h1 with h1 | ⟨s, hs, hk, hu⟩
+  · cases h1
+  · exact ⟨n, b, s, hn, hb, hs, hk, hu, h2⟩
+
 /-! ## non-vacuity: a concrete world on which every hypothesis and every branch is realised
 
 graph 0: input `x` (0), initializer `w` (1); node 0: `a (2) = f(x, w)`; node 1: `b (3) = g(a, None)` with a
@@ -515,6 +542,20 @@ example : ∀ u, Reach exW 0 [2, 0] [3] u → exW.prod u = none → exW.isInit u
 
 /-- C18_captures_exact: the nested graph 1 of node 1 captures `x` (value 0), and nothing else -/
 example : (analyze exW (.mk 0 [0] [1] [3] exW.nodes)).get 1 = [0] := by decide
+/-- hypotheses of C18_captures_complete are met by the nested graph of node 1 and the value `x` -/
+example : 0 ∈ (analyze exW (.mk 0 [0] [1] [3] exW.nodes)).get 1 :=
+  C18_captures_complete exW (.mk 0 [0] [1] [3] exW.nodes) (n := .mk [some 2, none] [3] [.mk 1 [] [] [4] [.mk [some 0] [4] []]])
+    (b := .mk 1 [] [] [4] [.mk [some 0] [4] []]) (s := .mk 1 [] [] [4] [.mk [some 0] [4] []])
+    (by simp [exW]) (by simp) SubG.self
+    (UsedInG.node (n := .mk [some 0] [4] []) (by simp) (UsedInN.direct (by simp)))
+    (by
+      intro j hj
+      cases hj with
+      | self => decide
+      | @deeper _ c nd _ hn' hc' _ =>
+        have : nd = NodeT.mk [some 0] [4] [] := by simpa using hn'
+        subst this
+        simp at hc')
 example : CapG exW [] (.mk 1 [] [] [4] [.mk [some 0] [4] []]) 1 0 :=
   CapG.here (n := .mk [some 0] [4] []) (by simp) (by simp) (by unfold AddsTo; decide)
 
